@@ -50,6 +50,24 @@ func BaseEnv(home string) []string {
 	}
 }
 
+// HostileEnv returns ambient variables that a tool might be tempted to give a meaning to:
+// variant 1 = switch-looking SPOK_* variables set to false values, 2 = the variables CI systems
+// set (plus colour forcing), 3 = both plus relocated XDG directories below home. 0 = none.
+func HostileEnv(variant int, home string) []string {
+	sw := []string{"SPOK_FORCE=0", "SPOK_QUIET=0", "SPOK_JSON=0", "SPOK_DEBUG=false", "SPOK_CLEAN=0", "SPOK_FMT=false", "SPOK_JOBS=0", "SPOKFILE="}
+	ci := []string{"CI=true", "GITHUB_ACTIONS=true", "GITLAB_CI=true", "FORCE_COLOR=1", "CLICOLOR_FORCE=1", "DEBUG=1", "VERBOSE=1"}
+	switch variant % 4 {
+	case 1:
+		return sw
+	case 2:
+		return ci
+	case 3:
+		out := append(append([]string{}, sw...), ci...)
+		return append(out, "XDG_CACHE_HOME="+home+"/.xdg-cache", "XDG_CONFIG_HOME="+home+"/.xdg-config", "TMPDIR="+home+"/.tmp")
+	}
+	return nil
+}
+
 // RunSpok executes the binary and records what can be seen from outside.
 func RunSpok(o SpokOpts) Invocation {
 	if o.Timeout == 0 {
